@@ -8,6 +8,7 @@ let () =
   | [| _; "grid" |] -> Grid_driver.run ()
   | [| _; "nn" |] -> Nn_driver.run ()
   | [| _; "eit" |] -> Eit_driver.run ()
+  | [| _; "gnatfull" |] -> Gnatfull_driver.run ()
   | [| _; "codec" |] -> Codec_driver.run ()
   | [| _; "vss" |] -> Vss_driver.run ()
   | [| _; "ledger" |] -> Ledger_driver.run ()
